@@ -20,6 +20,7 @@
 #include <string.h>
 #include <stdarg.h>
 #include <unistd.h>
+#include <time.h>
 #include <errno.h>
 #include <fcntl.h>
 #include <signal.h>
@@ -49,11 +50,25 @@ static void key_of (char *out, const char *name, const char *suffix) {
 	p_free (k);
 }
 
+/* unique per run, not only per pid: pids are recycled quickly on a busy machine */
+static long long run_tag (void) {
+	static long long t;
+	if (!t) { struct timespec ts; clock_gettime (CLOCK_REALTIME, &ts); t = (long long) ts.tv_sec * 1000000000LL + ts.tv_nsec; }
+	return t;
+}
+
 static void make_names (void) {
+	/* names 0 and 1 differ ONLY in their first byte and contain '%' and non-ASCII bytes; names 2 and 3 are
+	 * about 300 bytes long and differ ONLY in their last byte (280-byte common prefix and more) */
 	for (int i = 0; i < NN; ++i) {
 		char fill[300]; memset (fill, 'x', sizeof fill); fill[i >= 2 ? 280 : 0] = 0;
-		snprintf (sem_name[i], sizeof sem_name[i], "pvipc-%d-%d-%ss%d", (int) getpid (), generation, fill, i);
-		snprintf (shm_name[i], sizeof shm_name[i], "pvipc-%d-%d-%sm%d", (int) getpid (), generation, fill, i);
+		if (i < 2) {
+			snprintf (sem_name[i], sizeof sem_name[i], "%cvipc-%%s%%n\xc3\xa9\xff-%d-%llx-%d-sem", i ? 'q' : 'p', (int) getpid (), run_tag (), generation);
+			snprintf (shm_name[i], sizeof shm_name[i], "%cvipc-%%s%%n\xc3\xa9\xff-%d-%llx-%d-shm", i ? 'q' : 'p', (int) getpid (), run_tag (), generation);
+		} else {
+			snprintf (sem_name[i], sizeof sem_name[i], "pvipc-%d-%llx-%d-%ss%d", (int) getpid (), run_tag (), generation, fill, i);
+			snprintf (shm_name[i], sizeof shm_name[i], "pvipc-%d-%llx-%d-%sm%d", (int) getpid (), run_tag (), generation, fill, i);
+		}
 		key_of (sem_key[i], sem_name[i], "_p_sem_object");
 		key_of (shm_key[i], shm_name[i], "_p_shm_object");
 		key_of (lock_key[i], shm_key[i], "_p_sem_object");
@@ -696,7 +711,7 @@ static void run_par (char **t, int n) {
 /* ---------------------------------------------------------------- supporting stress runs */
 static int stress_sem (int nproc, int v, int iters) {
 	struct sh { atomic_int inside, maxin, bad; } *sh = __real_mmap (NULL, 4096, PROT_READ | PROT_WRITE, MAP_SHARED | MAP_ANONYMOUS, -1, 0);
-	char name[96]; snprintf (name, sizeof name, "pvipc-%d-stress-s", (int) getpid ());
+	char name[96]; snprintf (name, sizeof name, "pvipc-%d-%llx-stress-s", (int) getpid (), run_tag ());
 	PSemaphore *s0 = p_semaphore_new (name, v, P_SEM_ACCESS_CREATE, NULL);
 	if (!s0) { puts ("stress-sem: cannot create"); return 2; }
 	pid_t ps[64];
@@ -728,7 +743,7 @@ static int stress_sem (int nproc, int v, int iters) {
 }
 
 static int stress_shm (int nproc, int iters) {
-	char name[96]; snprintf (name, sizeof name, "pvipc-%d-stress-m", (int) getpid ());
+	char name[96]; snprintf (name, sizeof name, "pvipc-%d-%llx-stress-m", (int) getpid (), run_tag ());
 	PShm *m0 = p_shm_new (name, 4096, P_SHM_ACCESS_READWRITE, NULL);
 	if (!m0) { puts ("stress-shm: cannot create"); return 2; }
 	pid_t ps[64];
